@@ -39,7 +39,7 @@ T = {
  "C19-1": ("C19", "eof not reset in copy() and finish signalled before the reader is joined; needs two operands and an interleaving", ["sniff"]),
  "C19-2": ("C19", "copy pipeline skipped for operands whose reported size is <= 4; needs a FIFO / device operand with -cdf", ["sniff"]),
  "C20-1": ("C20", "weight_add depth increment constant; needs package depths summing to >= 16 at a near-tie", []),
- "C20-2": ("C20", "sort_alphabet range off by one (EOB unsorted); needs a table whose last group is short", []),
+ "C20-2": ("C20", "sort_alphabet range off by one (EOB unsorted); needs a table whose last group is short", ["assign_opt_L3_A3", "assign_opt_L3_A4"]),
  "C21-1": ("C21", "read error after a partly filled buffer taken for end of input; needs a failing read() that is not the first of a buffer", ["xread_fill", "sniff"]),
  "C21-2": ("C21", "inherited blocked signals not cleared (main thread never woken); needs a parent that blocks SIGUSR1 and a sub-thread I/O failure", ["main_filter_compress", "main_filter_decompress", "main_filter_copy"]),
  "C22-1": ("C22", "environment tokenizer splits at every separator; needs doubled or leading separators in LBZIP2/BZIP2/BZIP", ["opts_env_x_names"]),
@@ -61,7 +61,7 @@ for d in sorted(glob.glob("/verif/seeded/C*-*")):
                       "ctest_with_change": c.get("ctest"), "demo_exit_changed_build": c.get("demo_rc_changed"), "demo_exit_unchanged_build": c.get("demo_rc_unchanged")},
         "checked_with": "tools/try_mutant.sh seeded/%s/patch.diff <property> (scratch copy of /repo/src with the patch; /repo itself untouched)" % i,
         "caught_by": caught, "caught": bool(caught),
-        "note": "" if caught else ("property not claimed (out of reach)" if prop == "C20" else "missed: the code it touches is listed as outside the claim in MANIFEST.json"),
+        "note": "" if caught else ("needs package depths >= 16: not reachable at the scaled bounds of C20" if prop == "C20" else "missed: the code it touches is listed as outside the claim in MANIFEST.json"),
     }
     json.dump(meta, open(d + "/meta.json", "w"), indent=1)
 print("done")
